@@ -44,6 +44,28 @@ type ImplBlock struct {
 	Span           errors.Span
 }
 
+func (self ImplBlockTemplate) String() string {
+	if !self.UserDefinedCapabilities.Defined {
+		return self.Template.Ident()
+	}
+
+	capabilities := make([]string, 0)
+	for _, capability := range self.UserDefinedCapabilities.List {
+		capabilities = append(capabilities, capability.Ident())
+	}
+
+	return fmt.Sprintf("%s with { %s }", self.Template, strings.Join(capabilities, ", "))
+}
+
+func (self ImplBlock) String() string {
+	methods := make([]string, 0)
+	for _, method := range self.Methods {
+		methods = append(methods, strings.ReplaceAll(method.String(), "\n", "\n    "))
+	}
+
+	return fmt.Sprintf("impl %s for %s {\n    %s\n}", self.UsingTemplate, self.SingletonIdent, strings.Join(methods, "\n\n    "))
+}
+
 //
 // Function annotation.
 //
